@@ -6,7 +6,7 @@ P = 'C19'
 
 def uw(l):
     d = select_unwindset(l)
-    d.update({r'c19::': 4, r'memcmp': 600, r'RankSupport::new$#0': 3, r'RankSupport::new$#1': 4})
+    d.update({r'c19::': 4, r'memcmp': 600, r'RankSupport::new$#0': 10, r'RankSupport::new$#1': 4 + l // 512, r'c01::any_bits$': (l + 63) // 64 + 2, r'RawVector::count_ones$': (l + 63) // 64 + 2, r'Vec::<u64>::extend_with$': max(18, (l + 63) // 64 + 2)})
     return d
 
 
